@@ -7,6 +7,7 @@ import (
 	"strings"
 	"testing"
 
+	"verifharness/ref/bitw"
 	"verifharness/runner"
 )
 
@@ -83,4 +84,52 @@ func TestServe(t *testing.T) {
 		fmt.Println("VIOL", v.Key, "|", v.What)
 	}
 	fmt.Println("nops", resp.NOps, resp.Counts)
+}
+
+// TestPPSLoopWitnesses builds the two hevc PPS witnesses that the random
+// workload reaches only under the shared key es/hevc.ParsePPSNALUnit/alloc:
+// tile column loop and SCC palette loop running on after the data ended.
+func TestPPSLoopWitnesses(t *testing.T) {
+	env := &runner.Env{Tier: "quick", Seed: 1, RepoDir: "/repo"}
+	s, err := loadSeeds(env)
+	if err != nil {
+		t.Fatal(err)
+	}
+	seeds = s
+	defaultMaps = buildDefaultMaps(s)
+	common := func(w *bitw.W) {
+		w.UE(0) // pps id
+		w.UE(0) // sps id
+		w.Flag(false)
+		w.Flag(false)
+		w.Put(0, 3)
+		w.Flag(false)
+		w.Flag(false)
+		w.UE(0)
+		w.UE(0)
+		w.SE(0)
+		w.Flag(false)
+		w.Flag(false)
+		w.Flag(false) // cu_qp_delta_enabled
+		w.SE(0)
+		w.SE(0)
+		w.Flag(false)
+		w.Flag(false)
+		w.Flag(false)
+		w.Flag(false) // transquant bypass
+	}
+	tiles := &bitw.W{}
+	common(tiles)
+	tiles.Flag(true)  // tiles_enabled
+	tiles.Flag(false) // entropy sync
+	tiles.UE(1 << 21) // num_tile_columns_minus1
+	tiles.UE(0)
+	tiles.Flag(false) // uniform spacing
+	tiles.TrailingBits()
+	in := append([]byte{0x44, 0x01}, bitw.Escape(tiles.Bytes())...)
+	resp := serve(&probeReq{Items: []item{{In: in, Desc: "tile witness", Mode: "all"}}})
+	for _, v := range resp.Viol {
+		fmt.Println("VIOL", v.Key, "|", head(v.What, 160))
+	}
+	fmt.Printf("tile witness %x\n", in)
 }
